@@ -16,6 +16,19 @@ struct GMGPolarVerifAccess {
     static const SourceTerm* source(const GMGPolar& g) { return g.source_term_.get(); }
     static const ExactSolution* exact(const GMGPolar& g) { return g.exact_solution_.get(); }
     static void initializeSolution(GMGPolar& g) { g.initializeSolution(); }
+    // the solver's own level-transfer wrappers (what the cycles call); which: 0 prolongation, 1 restriction, 2 injection,
+    // 3 extrapolated prolongation, 4 extrapolated restriction, 5 FMG interpolation
+    static void transfer(const GMGPolar& g, int which, int level, Vector<double>& result, const Vector<double>& x)
+    {
+        switch (which) {
+        case 0: g.prolongation(level, result, x); break;
+        case 1: g.restriction(level, result, x); break;
+        case 2: g.injection(level, result, x); break;
+        case 3: g.extrapolatedProlongation(level, result, x); break;
+        case 4: g.extrapolatedRestriction(level, result, x); break;
+        default: g.FMGInterpolation(level, result, x); break;
+        }
+    }
     // cycle: 0 V, 1 W, 2 F; extrapolated: implicit extrapolation variant
     static void cycle(GMGPolar& g, int type, bool extrapolated, int depth, Vector<double>& sol, Vector<double>& rhs, Vector<double>& res)
     {
